@@ -141,6 +141,9 @@ func (reg *Reg) ManifestGet(ctx context.Context, r ref.Ref) (manifest.Manifest, 
 	if err != nil {
 		return nil, fmt.Errorf("error reading manifest for %s: %w", r.CommonName(), err)
 	}
+	if len(rawBody) == 0 {
+		return nil, fmt.Errorf("error reading manifest for %s: empty body%.0w", r.CommonName(), errs.ErrShortRead)
+	}
 
 	m, err := manifest.New(
 		manifest.WithRef(r),
